@@ -576,6 +576,10 @@ func (k Keeper) BorrowAsset(ctx sdk.Context, addr string, lendID, pairID uint64,
 	if AmountIn.Denom != cAsset.Denom {
 		return types.ErrBadOfferCoinType
 	}
+	// the cTokens pledged must be those of the lend position named in the message
+	if pair.AssetIn != lendPos.AssetID {
+		return types.ErrBadOfferCoinType
+	}
 
 	minUSDVal, _ := sdk.NewDecFromStr(types.DollarOneValue)
 	loanValue, err := k.Market.CalcAssetPrice(ctx, pair.AssetOut, loan.Amount)
